@@ -12,7 +12,9 @@ META = dict(
           '(truncation at every small length and strided beyond, single-bit flips and boundary byte overwrites, saturation of 2/4/8-byte windows, block '
           'duplication/removal) x the sample\'s own format and probe x force, plus all registered formats over generated files, executed in isolated '
           'worker processes; TLC also checks the coverage obligation (every sample x mode x mutation class has a run), and every surviving partial tree '
-          'must satisfy the C03/C04 predicates.'),
+          'must satisfy the C03/C04 predicates. Field saturation takes numeric fields from fq\'s own decode of a sample (counts, sizes, lengths first), '
+          'alone, alone under force, and in forced pairs of the narrow early fields. Probe.tla is the as-built loop of decode.decode() over a group\'s formats '
+          'and the in-argument precedence: every scenario of 1..3 synthetic formats is emitted by TLC, run on the real decode.Decode and judged by TLC.'),
     note=('The specification decides each run and the completeness of the enumeration; it does not shrink the input space. Faults are deterministic '
           'under the fixed 6 GB address-space limit; a hang is reported only after it reproduces twice alone. Quick strides the family (recorded in evidence).'),
     technique='exhaustive mutation-family enumeration in isolated workers, each run validated by TLC against the TLA+ outcome machine (DecodeOutcome.tla) incl. coverage obligations',
